@@ -5,7 +5,7 @@ From InvokeVerif Require Import Corr.C18Corr Spec.C01Spec Proofs.ListFacts Proof
      Proofs.C01_final Proofs.C18_placement Proofs.C18_program Proofs.C18_values.
 From Coq Require Import Lia.
 
-Lemma copt_ok_no_names front cs args o : copt_ok front cs args o = true -> copt_ok front [] args o = true.
+Lemma copt_ok_no_names cs args o : copt_ok cs args o = true -> copt_ok [] args o = true.
 Proof.
   unfold copt_ok. destruct (find_flag args (co_tok o)); [|auto].
   destruct (nth_error args (co_idx o)); [|auto].
@@ -13,18 +13,18 @@ Proof.
     rewrite !andb_true_iff; tauto.
 Qed.
 
-Lemma copts_ok_no_names front cs : forall os args,
-  copts_ok front cs args os = true -> copts_ok front [] args os = true.
+Lemma copts_ok_no_names cs : forall os args,
+  copts_ok cs args os = true -> copts_ok [] args os = true.
 Proof.
   induction os as [|o os IH]; intros args H; [reflexivity|].
   cbn [copts_ok] in *. apply andb_true_iff in H. destruct H as [Ho Hr].
-  rewrite (copt_ok_no_names _ _ _ _ Ho). simpl. apply IH. exact Hr.
+  rewrite (copt_ok_no_names _ _ _ Ho). simpl. apply IH. exact Hr.
 Qed.
 
 (** core pass: a prefix of core options is consumed, the rest handed on *)
 Lemma core_pass_prefix ic cs os t rest :
   has_missing (init_ctx ic) = false ->
-  copts_ok true cs (rc_args (init_ctx ic)) os = true ->
+  copts_ok cs (rc_args (init_ctx ic)) os = true ->
   starts_with "-" t = false ->
   Forall (fun x => x <> "--") (t :: rest) ->
   parser_parse [] (Some ic) true (flat_map spell_copt os ++ t :: rest)
@@ -32,7 +32,7 @@ Lemma core_pass_prefix ic cs os t rest :
 Proof.
   intros Hm Ok' P Cl. set (i0 := init_ctx ic). set (pc := mkP [] (Some ic) true).
   assert (I0 : inert (MI i0 None false)) by exact I.
-  destruct (copts_steps_front pc [] eq_refl os i0 None false I0 Hm (copts_ok_no_names _ _ _ _ Ok'))
+  destruct (copts_steps_front pc [] eq_refl os i0 None false I0 Hm (copts_ok_no_names _ _ _ Ok'))
     as [fl [got [S0 [I1 Hm1]]]].
   cbv zeta in *. set (i0' := with_args i0 (apply_copts (rc_args i0) os)) in *.
   pose proof (step_first_unknown ic i0' fl got t I1 Hm1 P) as S1.
@@ -132,13 +132,13 @@ Proof.
   intros _ Nn Nl. unfold got_value. destruct (a_kind (r_spec r)); try congruence; rewrite Nn; reflexivity.
 Qed.
 
-Lemma apply_copt_entry_ok front cs args o j r :
-  copt_ok front cs args o = true -> nth_error args j = Some r ->
+Lemma apply_copt_entry_ok cs args o j r :
+  copt_ok cs args o = true -> nth_error args j = Some r ->
   exists r', nth_error (apply_copt args o) j = Some r' /\ r_spec r' = r_spec r /\
              (r' = r \/ (r_raw r' = true /\ aval_is_none (r_val r') = false /\
                          a_incrementable (r_spec r) = false /\ a_kind (r_spec r) <> KList)).
 Proof.
-  intros Ok' N. destruct (copt_ok_parts _ _ _ _ Ok') as [r0 [_ [_ [N0 [_ Hf]]]]].
+  intros Ok' N. destruct (copt_ok_parts _ _ _ Ok') as [r0 [_ [_ [N0 [_ Hf]]]]].
   destruct (apply_copt_entry args o j r N) as [r' [N' [Sp D]]].
   exists r'. split; [exact N'|]. split; [exact Sp|].
   destruct D as [->|[Rw Nn]]; [left; reflexivity|].
@@ -157,8 +157,8 @@ Proof.
     rewrite (nth_error_upd_nth_other _ _ _ _ Ne) in N'. congruence.
 Qed.
 
-Lemma apply_copts_entry_ok front cs : forall os args j r,
-  copts_ok front cs args os = true -> nth_error args j = Some r ->
+Lemma apply_copts_entry_ok cs : forall os args j r,
+  copts_ok cs args os = true -> nth_error args j = Some r ->
   exists r', nth_error (apply_copts args os) j = Some r' /\ r_spec r' = r_spec r /\
              (r' = r \/ (r_raw r' = true /\ aval_is_none (r_val r') = false /\
                          a_incrementable (r_spec r) = false /\ a_kind (r_spec r) <> KList)).
@@ -166,7 +166,7 @@ Proof.
   induction os as [|o os IH]; intros args j r Ok' N; [exists r; auto|].
   cbn [copts_ok] in Ok'. apply andb_true_iff in Ok'. destruct Ok' as [Oo Or].
   cbn [apply_copts fold_left]. fold (apply_copts (apply_copt args o) os).
-  destruct (apply_copt_entry_ok front cs args o j r Oo N) as [r1 [N1 [S1 D1]]].
+  destruct (apply_copt_entry_ok cs args o j r Oo N) as [r1 [N1 [S1 D1]]].
   destruct (IH _ j r1 Or N1) as [r2 [N2 [S2 D2]]].
   exists r2. split; [exact N2|]. split; [congruence|].
   destruct D2 as [->|(A&B&C&D)]; [exact D1|]. right. rewrite S1 in C, D. auto.
@@ -185,12 +185,12 @@ Let i0 := init_ctx ic.
 Let I := rc_args i0.
 
 Lemma update_core_front os :
-  copts_ok true cs I os = true ->
+  copts_ok cs I os = true ->
   core_values (update_core (apply_copts I os) I) = core_values (apply_copts I os).
 Proof.
   intros Ok'. apply update_core_pointwise; [rewrite apply_copts_length; reflexivity | reflexivity|].
   intros j c v x Nc Nv Nx. rewrite Nc in Nx. injection Nx as <-. split; [reflexivity|].
-  destruct (apply_copts_entry_ok true cs os I j v Ok' Nv) as [r' [N' [Sp D]]].
+  destruct (apply_copts_entry_ok cs os I j v Ok' Nv) as [r' [N' [Sp D]]].
   rewrite N' in Nc. injection Nc as <-.
   destruct D as [->|(Rw&Nn&Ni&Nl)].
   - destruct (got_value v); [destruct v|]; reflexivity.
@@ -202,12 +202,12 @@ Proof.
 Qed.
 
 Lemma update_core_placed os :
-  copts_ok false cs I os = true ->
+  copts_ok cs I os = true ->
   core_values (update_core I (apply_copts I os)) = core_values (apply_copts I os).
 Proof.
   intros Ok'. apply update_core_pointwise; [apply apply_copts_length | apply apply_copts_length|].
   intros j c v x Nc Nv Nx. rewrite Nv in Nx. injection Nx as <-.
-  destruct (apply_copts_entry_ok false cs os I j c Ok' Nc) as [r' [N' [Sp D]]].
+  destruct (apply_copts_entry_ok cs os I j c Ok' Nc) as [r' [N' [Sp D]]].
   rewrite N' in Nv. injection Nv as <-. split; [rewrite Sp; reflexivity|].
   destruct D as [->|(Rw&Nn&Ni&Nl)].
   - destruct (got_value c); [destruct c|]; reflexivity.
@@ -219,7 +219,7 @@ Let core_after (os : list copt) : list (string * aval) := core_values (apply_cop
 
 (** the options before the first task: consumed by the core pass *)
 Theorem program_prefix_front os inv :
-  simple_guard cs ic inv = true -> copts_ok true cs I os = true ->
+  simple_guard cs ic inv = true -> copts_ok cs I os = true ->
   exists g, prog_obs ic cs (flat_map spell_copt os ++ spell cs inv) = Ok g /\
             g_core g = core_after os /\ g_tasks g = expected cs inv /\
             g_unparsed g = spell cs inv /\ g_remainder g = "".
@@ -249,7 +249,7 @@ Theorem program_prefix_placed os calls1 t asn items1 items2 calls2 c :
   simple_guard cs ic inv = true ->
   nth_error cs t = Some c ->
   forallb (copt_free cs c) os = true ->
-  copts_ok false cs I os = true ->
+  copts_ok cs I os = true ->
   exists g, prog_obs ic cs argv = Ok g /\
             g_core g = core_after os /\ g_tasks g = expected cs inv /\
             g_unparsed g = argv /\ g_remainder g = "".
@@ -290,30 +290,27 @@ Proof.
 Qed.
 
 (** C18 for whole core prefixes: boolean and value-taking options (spaced,
-    "=", glued in front), moved together anywhere admissible: same core values,
+    "=", glued), moved together -- same spellings -- anywhere admissible: same core values,
     same task calls, through both passes and _update_core_context. *)
 Corollary program_prefix_placement_equiv os calls1 t asn items1 items2 calls2 c :
   let inv := calls1 ++ mkCall t asn (items1 ++ items2) :: calls2 in
   simple_guard cs ic inv = true ->
   nth_error cs t = Some c ->
   forallb (copt_free cs c) os = true ->
-  copts_ok true cs I os = true ->
+  copts_ok cs I os = true ->
   exists gf gp,
     prog_obs ic cs (flat_map spell_copt os ++ spell cs inv) = Ok gf /\
     prog_obs ic cs (spell cs calls1 ++ (asn :: flat_map (spell_item c) items1)
-                    ++ flat_map spell_copt (map unglue os)
+                    ++ flat_map spell_copt os
                     ++ flat_map (spell_item c) items2 ++ spell cs calls2) = Ok gp /\
     g_core gf = g_core gp /\ g_tasks gf = g_tasks gp /\ g_tasks gp = expected cs inv /\
     g_remainder gf = g_remainder gp.
 Proof.
   intros inv G N Free Ok'.
   destruct (program_prefix_front os inv G Ok') as [gf [Pf [Cf [Tf [_ Rf]]]]].
-  assert (Free' : forallb (copt_free cs c) (map unglue os) = true).
-  { rewrite forallb_forall in *. intros o Ho. apply in_map_iff in Ho. destruct Ho as [o' [<- Ho']].
-    specialize (Free o' Ho'). unfold copt_free, unglue in *. destruct (co_form o'); exact Free. }
-  destruct (program_prefix_placed (map unglue os) calls1 t asn items1 items2 calls2 c G N Free'
-              (copts_ok_unglue cs os _ Ok')) as [gp [Pp [Cp [Tp [_ Rp]]]]].
-  exists gf, gp. fold inv in Tp. unfold core_after in *. rewrite apply_copts_unglue in Cp.
+  destruct (program_prefix_placed os calls1 t asn items1 items2 calls2 c G N Free Ok')
+    as [gp [Pp [Cp [Tp [_ Rp]]]]].
+  exists gf, gp. fold inv in Tp. unfold core_after in *.
   repeat split; auto; congruence.
 Qed.
 
